@@ -297,8 +297,8 @@ def _live_ifaces():
 
 
 def gen_cases(rng, tier):
-    n_utmp = {"quick": 200, "thorough": 4000, "search": 300}[tier]
-    n_mnt = {"quick": 160, "thorough": 3000, "search": 300}[tier]
+    n_utmp = {"quick": 140, "thorough": 1500, "search": 250}[tier]
+    n_mnt = {"quick": 110, "thorough": 1200, "search": 250}[tier]
     cases = []
     # ---- login records
     cases.append({"kind": "utmp", "cls": "trivial", "recs": []})
@@ -502,7 +502,13 @@ def judge(case, coq, impl):
         if tag == "Os":
             if impl.get("t") == "Val" or impl == Exc("OSError") or impl.get("t") == "Exc" and impl["a"][0]["t"] in (
                     "NoSuchProcess", "AccessDenied", "ZombieProcess"):
-                exp = case.get("_expect_val")
+                if case["ep"] in ("net_if_mtu", "net_if_flags", "net_if_is_running", "net_if_duplex_speed"):
+                    # the name the kernel sees is the model's 15-byte cut: "lo" must answer, an absent name must not
+                    seen = bytes.fromhex(cres["a"][2]["b"])
+                    if seen == b"lo" and impl.get("t") != "Val":
+                        return Verdict("corr", "interface 'lo' exists but the call raised %s" % (impl,))
+                    if not os.path.exists(os.path.join(b"/sys/class/net", seen or b"\xff")) and impl.get("t") == "Val":
+                        return Verdict("corr", "no interface %r but the call returned %s" % (seen, impl))
                 return Verdict("ok")
             return Verdict("corr", "arguments reach the OS in the model, implementation raised %s" % (impl,))
         return Verdict("ok") if impl == cres else Verdict("corr", "impl %s != model %s" % (impl, cres))
